@@ -404,6 +404,27 @@ nd::harnesses! {
         }
     }
 
+    /// A group built from a type that enables only SOME optional traits: calls still agree, and a view
+    /// that needs a trait which was not enabled is refused (so no call can go through a missing vtable).
+    #[kani::unwind(5)]
+    fn c01_group_partial_impl() {
+        let mut direct: St = nd::any();
+        let twin = StO(direct.clone());
+        let mut grp = group_obj!(twin as Grp);
+        assert!(as_ref!(grp impl Reader).is_none());
+        assert!(as_ref!(grp impl Reader + Other).is_none(), "a view needs EVERY requested trait");
+        assert!(as_mut!(grp impl Reader + Other).is_none());
+        step_counter(&mut direct, &mut grp);
+        {
+            let o = as_mut!(grp impl Other).unwrap();
+            let v: u64 = nd::any();
+            assert!(direct.other_mut(v) == o.other_mut(v));
+            step_counter(&mut direct, o);
+        }
+        assert!(direct.snap() == grp.snap());
+        assert!(cast!(grp impl Reader + Other).is_none());
+    }
+
     /// Negative twin: claims `add` through the object leaves the value unchanged.
     #[kani::unwind(5)]
     fn c01_negative_twin() {
